@@ -9,6 +9,7 @@ import (
 	"fmt"
 	"math/rand"
 	"net"
+	"os"
 	"sync"
 	"sync/atomic"
 	"time"
@@ -113,7 +114,7 @@ func mkMarker(dir byte, ch byte, sender int, seq uint32) (m [12]byte) {
 	m[0], m[1], m[2], m[3] = 0xC2, 0x0C, dir, ch
 	m[4] = byte(sender)
 	binary.BigEndian.PutUint32(m[5:], seq)
-	m[9], m[10], m[11] = 0x5E, byte(seq>>8) ^ 0xA5, byte(seq) ^ 0x5A
+	m[9], m[10], m[11] = 0x5E, byte(seq>>8)^0xA5, byte(seq)^0x5A
 	return
 }
 
@@ -123,29 +124,25 @@ func genSizes(rng *rand.Rand, capacity int, n int, minSize int) []msgPlan {
 	out := make([]msgPlan, n)
 	for i := range out {
 		var s int
-		switch rng.Intn(10) {
-		case 0, 1, 2, 3:
+		switch rng.Intn(20) {
+		case 0, 1, 2, 3, 4, 5, 6, 7, 8, 9:
 			s = rng.Intn(200)
-		case 4:
-			s = 1024*(1+rng.Intn(8)) + rng.Intn(7) - 3
-		case 5:
-			s = 1024 * (1 + rng.Intn(6))
-		case 6, 7:
-			s = rng.Intn(8192)
-		case 8:
-			s = capacity - rng.Intn(2)
-		default:
-			m := capacity
-			if m > 150000 {
-				m = 150000
+		case 10, 11, 12:
+			s = 1024*(1+rng.Intn(4)) + rng.Intn(7) - 3 // around a packet boundary
+		case 13, 14:
+			s = 1024 * (1 + rng.Intn(4)) // exactly N packets
+		case 15, 16, 17:
+			s = rng.Intn(4097)
+		case 18:
+			s = capacity - rng.Intn(2) // the channel's capacity and one below
+			if capacity > 300000 {
+				s = 65536 + rng.Intn(8) - 4 // default capacity (21 MB): stay around the 3-byte length boundary instead
 			}
-			s = rng.Intn(m + 1)
+		default:
+			s = rng.Intn(20001)
 		}
 		if s > capacity {
 			s = capacity
-		}
-		if capacity > 300000 && s > 300000 {
-			s = 300000
 		}
 		if s < minSize {
 			s = minSize
@@ -181,7 +178,7 @@ func genSession(i int) *sessPlan {
 		var out []senderPlan
 		for _, c := range p.Chans {
 			for s := 0; s < c.Senders; s++ {
-				n := 3 + rng.Intn(25)
+				n := 3 + rng.Intn(18)
 				min := 0
 				if c.Senders > 1 {
 					min = 16 // the marker must fit: messages of different senders must be distinguishable
@@ -296,6 +293,16 @@ func connPair(kind string) (net.Conn, net.Conn, error) {
 	}
 }
 
+// mconnAPI: the calls go through an interface so that the p2p functions are
+// not inlined into harness functions (race reports then name the p2p frame).
+type mconnAPI interface {
+	Send(chID byte, msg interface{}) bool
+	TrySend(chID byte, msg interface{}) bool
+	CanSend(chID byte) bool
+	IsRunning() bool
+	Status() p2p.ConnectionStatus
+}
+
 type sentRec struct {
 	mtx      sync.Mutex
 	accepted map[string][][]byte // key ch/sender
@@ -305,7 +312,7 @@ type sentRec struct {
 func skey(ch byte, s int) string { return fmt.Sprintf("%02X/%d", ch, s) }
 
 // runSender performs one sender's plan on mc and then sends its sentinel.
-func runSender(o *rec, mc *p2p.MConnection, dir byte, sp senderPlan, seed int64, sr *sentRec, dead *int32) {
+func runSender(o *rec, mc mconnAPI, dir byte, sp senderPlan, seed int64, sr *sentRec, dead *int32) {
 	rng := rand.New(rand.NewSource(seed ^ int64(sp.Ch)<<8 ^ int64(sp.Sender)<<20 ^ int64(dir)<<24))
 	var acc [][]byte
 	var ref [][]byte
@@ -369,6 +376,13 @@ func classifyMismatch(got []byte, exp [][]byte, i int, refused [][]byte) string 
 	}
 	if i < len(exp) {
 		e := exp[i]
+		if len(e) == 0 {
+			for j := i + 1; j < len(exp); j++ {
+				if bytes.Equal(got, exp[j]) {
+					return "mconn-zero-length-message-lost"
+				}
+			}
+		}
 		if i+1 < len(exp) && bytes.Equal(got, append(append([]byte{}, e...), exp[i+1]...)) {
 			return "mconn-messages-merged"
 		}
@@ -501,8 +515,9 @@ func runSession(o *rec, p *sessPlan) {
 				case <-stopObs:
 					return
 				case <-time.After(3 * time.Millisecond):
-					_ = A.mc.Status()
-					_ = B.mc.Status()
+					for _, m := range []mconnAPI{A.mc, B.mc} {
+						_ = m.Status()
+					}
 					o.Count("c_status_calls", 2)
 				}
 			}
@@ -586,7 +601,7 @@ func runSession(o *rec, p *sessPlan) {
 		B.mtx.Lock()
 		before := len(B.recvd[cp.ID])
 		B.mtx.Unlock()
-		ok := A.mc.Send(cp.ID, msg)
+		ok := mconnAPI(A.mc).Send(cp.ID, msg)
 		o.Count("c_overflow_cases", 1)
 		if ok {
 			wd := time.After(120 * time.Second)
@@ -672,6 +687,9 @@ func monitorMConn(o *rec) {
 		return
 	}
 	n := lib.Pick(160, 5000)
+	if v := os.Getenv("C20_DEBUG_SESSIONS"); v != "" {
+		fmt.Sscan(v, &n)
+	}
 	lib.Parallel(n, lib.Pick(24, 32), func(i int) {
 		runSession(o, genSession(i))
 	})
